@@ -16,13 +16,13 @@ NOTES = 'Contract-based deductive verification. ./check <id> re-extracts, re-gen
 
 _V = 'Verus (Z3) function contracts on code extracted from the working tree'
 CHECKS = {
-    'C01': {'engine': 'verus', 'design_ref': '5 C01', 'technique': 'deductive verification of function contracts (Verus) on extracted code + real-arithmetic rounding lemmas',
+    'C01': {'engine': 'verus', 'design_ref': '5 C01', 'technique': 'deductive verification of function contracts (Verus) on extracted code; magnitude lemmas over explicit rounding models (binary64 relative, decimal absolute)',
             'level_text': 'Unbounded proof: ratio/equiv_amount/convert verified at trait level against exact functional contracts for every implementing type, unit and amount; the magnitude statement is a lemma over an explicit rounding model.',
             'level_note': 'Trusted: extraction rewrites R1-R7, M0/M1 amount models (standard model of f64 / fpdec operations), derived PartialEq structural, Verus+Z3.'},
-    'C02': {'engine': 'verus', 'design_ref': '5 C02', 'technique': 'deductive verification of function contracts (Verus); symmetry lemmas over uninterpreted amount operations',
+    'C02': {'engine': 'verus', 'design_ref': '5 C02', 'technique': 'deductive verification of function contracts (Verus); symmetry lemmas over uninterpreted amount operations whose axioms are proved for f64 by Kani; physical-order lemmas over rounding models',
             'level_text': 'Unbounded proof of the comparison contracts and of operand-order independence over an amount model that assumes no algebraic law rounding breaks.',
-            'level_note': 'Trusted: as C01; <,<=,>,>=,!= are core default methods over partial_cmp/eq (A-std).'},
-    'C03': {'engine': 'verus', 'design_ref': '5 C03', 'technique': 'deductive verification of function contracts (Verus)',
+            'level_note': 'Trusted: as C01; <,<=,>,>=,!= are core default methods over partial_cmp/eq (A-std) - an overriding method in a generated impl is verified against vstd\'s specification of it.'},
+    'C03': {'engine': 'verus', 'design_ref': '5 C03', 'technique': 'deductive verification of function contracts (Verus); magnitude lemmas over rounding models',
             'level_text': 'Unbounded proof of add/sub/div contracts at trait level and per generated operator.',
             'level_note': 'Trusted: as C01.'},
     'C10': {'engine': 'verus+kani', 'design_ref': '5 C10', 'technique': 'deductive verification of function contracts (Verus) incl. unreachability of panic under the same-unit precondition; Kani should_panic harnesses',
